@@ -189,6 +189,11 @@ pub fn stateful<T, I: Iterator<Item = T>, F: Fn() -> I, S: Fn(&T) -> String>(mk:
     let last_after = adv(j).last().map(|v| show(&v)).unwrap_or("-".into());
     let e = adv(n).next().is_none() && adv(n).last().is_none() && adv(n).count() == 0 && adv(n).nth(0).is_none()
         && mk().skip(n).last().is_none() && mk().skip(n + 1).next().is_none();
+    // a jump strictly beyond the end (from the start, and from the middle), then what a consumer does with the same iterator:
+    // the lower size hint must not exceed what is left (nothing), and collecting (which consults the hint) must deliver nothing
+    let beyond = |from: usize, by: usize| { let mut it = adv(from); let gone = it.nth(by).is_none(); let (lo, _) = it.size_hint();
+        gone && lo == 0 && it.by_ref().map(|v| show(&v)).collect::<String>().is_empty() && it.next().is_none() };
+    let e = e && beyond(0, n + 1) && beyond(j, n + 7) && beyond(n, 1) && beyond(j.min(1), usize::MAX);
     format!("{}:{}:{}", rem, last_after, e as u8)
 }
 
